@@ -16,6 +16,7 @@ REGISTRY = {
     "C11": ("checks.ledger_checks", "c11"),
     "C07": ("checks.calls_checks", "c07"),
     "C08": ("checks.calls_checks", "c08"),
+    "C16": ("checks.featurizer_checks", "c16"),
 }
 
 
